@@ -314,7 +314,26 @@ func (x *Exec) evalCall(e *ast.CallExpr, st *State) (Value, types.Type) {
 				x.oblige(st, "pre", "gate@"+types.ExprString(e), phi, x.con.Opts["bltn-gate"])
 			}
 		}
-		// call through an opaque function value (field, map entry...): havoc result
+		// call through an opaque function value (field, map entry...)
+		if x.con != nil && x.con.Opts["fn-values"] == "pure" {
+			if rt := x.typeOf(e); rt != nil {
+				if _, isTuple := rt.(*types.Tuple); !isTuple && x.sortOf(rt) == SInt {
+					// value functions (genValue results) are lookups: the same function applied to the same
+					// frame yields the same handle
+					args, _ := x.evalArgs(e.Args, st)
+					ts := []Term{asTerm(fv)}
+					for _, a := range args {
+						ts = append(ts, asTerm(a))
+					}
+					x.noteAssume("function values applied in this unit are pure lookups returning pre-state locations (apply is a function of the value and its arguments)")
+					app := x.uf(fmt.Sprintf("applyfn%d", len(ts)), SInt, ts...)
+					if !x.underBinder(app.S) {
+						x.declare("(assert (>= "+app.S+" 0))", "ax_app:"+app.S)
+					}
+					return app, rt
+				}
+			}
+		}
 		x.noteAssume("call through an opaque function value " + types.ExprString(e.Fun) + ": result unconstrained, heap unchanged")
 		x.evalArgs(e.Args, st)
 		return x.opaqueResult(e, st), x.typeOf(e)
@@ -567,19 +586,20 @@ func (x *Exec) evalBuiltin(name string, e *ast.CallExpr, st *State) (Value, type
 		if e.Ellipsis.IsValid() {
 			ov := x.evalT(e.Args[1], st)
 			n := Term{"(+ " + x.slen(base).S + " " + x.slen(ov).S + ")", SInt}
-			h := x.newSlice(st, n, es, nil)
-			dst, s1, s2 := x.sliceArr(st, h, es), x.sliceArr(st, base, es), x.sliceArr(st, ov, es)
+			dstArr := x.fresh("appended", arraySort(SInt, es))
+			h := x.newSlice(st, n, es, &dstArr, sl.Elem())
+			dst, s1, s2 := dstArr, x.sliceArr(st, base, es, sl.Elem()), x.sliceArr(st, ov, es, sl.Elem())
 			st.assume(fmt.Sprintf("(forall ((i Int)) (! (= (select %s i) (ite (< i %s) (select %s i) (select %s (- i %s)))) :pattern ((select %s i))))", dst.S, x.slen(base).S, s1.S, s2.S, x.slen(base).S, dst.S))
 			return h, t
 		}
-		arr := x.sliceArr(st, base, es)
+		arr := x.sliceArr(st, base, es, sl.Elem())
 		for i, a := range e.Args[1:] {
 			av := x.evalT(a, st)
 			arr = Term{fmt.Sprintf("(store %s (+ %s %d) %s)", arr.S, x.slen(base).S, i, av.S), arr.Sort}
 		}
 		n := Term{fmt.Sprintf("(+ %s %d)", x.slen(base).S, len(e.Args)-1), SInt}
 		x.noteAssume("append yields a fresh slice value (sharing of spare capacity with the operand is not modelled)")
-		return x.newSlice(st, n, es, &arr), t
+		return x.newSlice(st, n, es, &arr, sl.Elem()), t
 	case "make":
 		t := x.typeOf(e.Args[0])
 		switch u := t.Underlying().(type) {
@@ -588,8 +608,7 @@ func (x *Exec) evalBuiltin(name string, e *ast.CallExpr, st *State) (Value, type
 			n := x.evalT(e.Args[1], st)
 			x.safety(st, "make-len", e, "(>= "+n.S+" 0)")
 			arr := Term{"((as const " + string(arraySort(SInt, es)) + ") " + zeroOf(es).S + ")", arraySort(SInt, es)}
-			h := x.newSlice(st, n, es, &arr)
-			st.names["$fresh:"+h.S] = true
+			h := x.newSlice(st, n, es, &arr, u.Elem())
 			return h, t
 		case *types.Map:
 			ks, vs := x.sortOf(u.Key()), x.sortOf(u.Elem())
@@ -627,10 +646,10 @@ func (x *Exec) evalBuiltin(name string, e *ast.CallExpr, st *State) (Value, type
 		es := x.sortOf(sl.Elem())
 		n := x.fresh("ncopy", SInt)
 		st.assume(fmt.Sprintf("(= %s (ite (<= %s %s) %s %s))", n.S, x.slen(dst).S, x.slen(src).S, x.slen(dst).S, x.slen(src).S))
-		oldArr, srcArr := x.sliceArr(st, dst, es), x.sliceArr(st, src, es)
+		oldArr, srcArr := x.sliceArr(st, dst, es, sl.Elem()), x.sliceArr(st, src, es, sl.Elem())
 		na := x.fresh("copied", arraySort(SInt, es))
 		st.assume(fmt.Sprintf("(forall ((i Int)) (! (= (select %s i) (ite (and (<= 0 i) (< i %s)) (select %s i) (select %s i))) :pattern ((select %s i))))", na.S, n.S, srcArr.S, oldArr.S, na.S))
-		x.sliceSetArr(st, dst, es, na)
+		x.sliceSetArr(st, dst, es, na, sl.Elem())
 		return n, types.Typ[types.Int]
 	case "delete":
 		mv, mt := x.eval(e.Args[0], st)
@@ -1070,21 +1089,14 @@ func (x *Exec) evalSpecCall(e *ast.CallExpr, st *State) (Value, types.Type) {
 		ks, vs := x.sortOf(u.Key()), x.sortOf(u.Elem())
 		m := asTerm(mv)
 		return Term{"(and (not (= " + m.S + " 0)) (select " + x.mapHas(st, m, ks, vs).S + " " + k.S + "))", SBool}, types.Typ[types.Bool]
-	case "fresh": // fresh(x): x was allocated during this call (it is one of the references created on this path)
+	case "fresh": // fresh(x): x was allocated during this call
 		v := x.evalT(e.Args[0], st)
 		if x.assuming {
-			// a callee's postcondition: the result is a new reference, distinct from null
+			// a callee's postcondition: the result is a new reference
 			r := x.newRef(st, "res")
 			return Term{"(= " + v.S + " " + r.S + ")", SBool}, types.Typ[types.Bool]
 		}
-		var alts []string
-		for k, ok := range st.names {
-			if strings.HasPrefix(k, "$fresh:") && ok == true {
-				alts = append(alts, "(= "+v.S+" "+strings.TrimPrefix(k, "$fresh:")+")")
-			}
-		}
-		sort.Strings(alts)
-		return Term{or(alts...), SBool}, types.Typ[types.Bool]
+		return Term{x.freshCond(st, v), SBool}, types.Typ[types.Bool]
 	case "substr":
 		s, a, b := x.evalT(e.Args[0], st), x.evalT(e.Args[1], st), x.evalT(e.Args[2], st)
 		return Term{"(str.substr " + s.S + " " + a.S + " (- " + b.S + " " + a.S + "))", SStr}, types.Typ[types.String]
@@ -1096,6 +1108,49 @@ func (x *Exec) evalSpecCall(e *ast.CallExpr, st *State) (Value, types.Type) {
 				if fv, ok := st.env[o].(*FuncV); ok && fv.Model != nil {
 					args, _ := x.evalArgs(e.Args, st)
 					return fv.Model.Apply(x, st, args), nil
+				}
+			}
+		}
+	}
+	if x.con != nil && x.con.Opts["fn-values"] == "pure" {
+		// applying a function-typed program expression (captured local, slice element): pure lookup
+		if _, isCall := e.Fun.(*ast.CallExpr); !isCall {
+			isSpec := false
+			if id, ok := e.Fun.(*ast.Ident); ok {
+				_, inNames := st.names[id.Name]
+				_, isPred := x.db.Preds[x.pkg.Types.Name()+"."+id.Name]
+				_, isSpecFn := x.L.specs[id.Name]
+				obj := x.pkg.Types.Scope().Lookup(id.Name)
+				_, isFunc := obj.(*types.Func)
+				_, isType := obj.(*types.TypeName)
+				isSpec = isPred || isSpecFn || isFunc || isType || (!inNames && x.conScope[id.Name] == nil && !x.openCaptured)
+				switch id.Name {
+				case "implies", "iff", "ite", "old", "forall", "exists", "len", "has", "fresh", "substr", "nth", "forallS", "existsS", "atSelect", "calledAt", "rvInt", "rvFloat", "rvComplex", "rvString", "rvBool", "rvIface":
+					isSpec = true
+				}
+			}
+			if ix, ok := e.Fun.(*ast.IndexExpr); ok || !isSpec {
+				_ = ix
+				if _, isSel := e.Fun.(*ast.SelectorExpr); !isSel {
+					fvv, ft := x.eval(e.Fun, st)
+					if ft != nil {
+						if sig, ok := ft.Underlying().(*types.Signature); ok && sig.Results().Len() == 1 {
+							if t, ok := fvv.(Term); ok {
+								args, _ := x.evalArgs(e.Args, st)
+								ts := []Term{t}
+								for _, a := range args {
+									ts = append(ts, asTerm(a))
+								}
+								app := x.uf(fmt.Sprintf("applyfn%d", len(ts)), SInt, ts...)
+								if !x.underBinder(app.S) {
+									x.declare("(assert (>= "+app.S+" 0))", "ax_app:"+app.S)
+								} else {
+									x.declare(fmt.Sprintf("(assert (forall ((a Int) (b Int)) (! (>= (applyfn2 a b) 0) :pattern ((applyfn2 a b)))))"), "ax_app_all")
+								}
+								return app, sig.Results().At(0).Type()
+							}
+						}
+					}
 				}
 			}
 		}
